@@ -75,6 +75,31 @@ pub fn run_routes(out: &mut Out, rng: &mut Rng, thorough: bool) {
             }
         }
     }
+    // body-centred and face-centred cubic lattices (2 x 2 x 2 and 3 x 3 x 3 conventional cells, periodic or not): their cells keep
+    // bisectors that only graze the cell - stored faces of area exactly 0 (or a rounding-level negative area); whatever a route
+    // does with such faces, every route has to do the same
+    for (name, basis) in [("bcc", vec![[0.0, 0.0, 0.0], [0.5, 0.5, 0.5]]), ("fcc", vec![[0.0, 0.0, 0.0], [0.5, 0.5, 0.0], [0.5, 0.0, 0.5], [0.0, 0.5, 0.5]])] {
+        for m in [2usize, 3] {
+            for periodic in [false, true] {
+                use glam::DVec3;
+                let mut gens = vec![];
+                for i in 0..m {
+                    for j in 0..m {
+                        for k in 0..m {
+                            for b in &basis {
+                                gens.push((DVec3::new(i as f64, j as f64, k as f64) + DVec3::new(b[0], b[1], b[2]) + DVec3::splat(0.25)) / m as f64);
+                            }
+                        }
+                    }
+                }
+                let inp = Input { family: format!("{}{}3{}_unit_z", name, m, if periodic { "p" } else { "r" }), dim: 3, periodic, anchor: DVec3::ZERO, width: DVec3::ONE, gens };
+                for mi in 0..2 {
+                    let mask = if mi == 0 { None } else { Some(gen::make_mask(rng, inp.gens.len())) };
+                    emit_routes(out, &inp, &mask);
+                }
+            }
+        }
+    }
     run_routes_large(out, rng, thorough);
 }
 
